@@ -88,7 +88,14 @@ pub fn describe(mode: &str, case: &Case) -> Outcome {
     let mut out = Outcome::new(&case.model);
     let mut r = SmallRng::seed_from_u64(case.sub);
     match mode {
-        "c12" | "c07" | "c08" | "c16" | "c06" | "c19" => {}
+        "c12" | "c08" | "c16" | "c06" | "c19" => {}
+        "c07" => {
+            // a hang / crash of the case can come from any of its configurations
+            let k = case.extra.get("k").as_i64().max(2) as usize;
+            if crate::props_b::cfgs_c07(&mut r, k).iter().any(|c| c.opts.class_thrash()) {
+                out.class("opt.thrash");
+            }
+        }
         "c09" => crate::props_b::cfg_c09(&mut r).label(&mut out),
         "c18" => crate::props_b::cfg_c18(case, &mut r).label(&mut out),
         "c02" | "c03" | "c05" => Config::random(&mut r).label(&mut out),
